@@ -313,9 +313,106 @@ fn judge_perms<F: Fl>(p: Prod, vals: &[f64], confs: &[(Kind, f64)], s: &mut Sink
     }
 }
 
+/// long vectors (beyond the switch to the normal quantile, and long enough for an
+/// uncompensated sum to show in f32): value i of pattern `id` with n observations
+fn long_value(id: u8, i: usize) -> f64 {
+    match id {
+        0 => [1.0, 2.0, 3.0, 0.1, 100.0][i % 5] + (i % 7) as f64 * 0.25,
+        _ => [-3.0, 0.5, 7.25, 0.1][i % 4] - (i % 3) as f64 * 1.5,
+    }
+}
+const LONG_N: [usize; 2] = [100_003, 250_000];
+
+fn judge_long<F: Fl>(id: u8, n: usize, confs: &[(Kind, f64)], s: &mut Sink) {
+    let a: Vec<F> = (0..n).map(|i| F::of(long_value(id, i))).collect();
+    // second sample of the comparisons: the other pattern, a little shorter for Unpaired
+    let b: Vec<F> = (0..n).map(|i| F::of(long_value(1 - id, i))).collect();
+    let bu: Vec<F> = b[..n - 17].to_vec();
+    let neg = |v: &Vec<F>| -> Vec<F> { v.iter().map(|x| -*x).collect() };
+    let scl = |v: &Vec<F>, k: f64| -> Vec<F> { v.iter().map(|x| F::of(x.f() * k)).collect() };
+    // structured orders of the first sample
+    let mut asc = a.clone();
+    asc.sort_by(|x, y| x.partial_cmp(y).unwrap());
+    let mut desc = asc.clone();
+    desc.reverse();
+    let mut rev = a.clone();
+    rev.reverse();
+    let stride: Vec<F> = (0..n).map(|i| a[(i * 7919) % n]).collect(); // 7919 is prime and does not divide n
+    let byabs = {
+        let mut v = a.clone();
+        v.sort_by(|x, y| y.abs().partial_cmp(&x.abs()).unwrap());
+        v
+    };
+    let orders: [(&str, &Vec<F>); 5] = [("reversed", &rev), ("ascending", &asc), ("descending", &desc), ("stride-7919", &stride), ("by-decreasing-magnitude", &byabs)];
+    let e = stats_of::<F>(Prod::Arithmetic, &a, &vec![]);
+    for &(kind, level) in confs {
+        let c = conf(kind, level);
+        let case = |p: Prod, rel: &str| json!({"long":id,"n":n,"producer":p,"type":F::NAME,"kind":kind,"level":level,"relation":rel});
+        for (p, x, y) in [(Prod::Arithmetic, &a, &vec![]), (Prod::Paired, &a, &b), (Prod::Unpaired, &a, &bu)] {
+            let base = call::<F>(p, c, x, y);
+            s.calls += 1;
+            let Some(bs) = sh(&base) else {
+                s.violation(format!("{p:?}/long-sample-rejected"), format!("{p:?}<{}> {c:?} on pattern {id} with {n} observations: {base:?}", F::NAME), case(p, "base"));
+                continue;
+            };
+            // negation: exactly mirrored, kinds exchanged
+            s.evals += 1;
+            s.calls += 1;
+            s.outcome(&(p, F::NAME, "long-negate", kind));
+            let r = call::<F>(p, conf(kind.flipped(), level), &neg(x), &neg(y));
+            let same = |u: f64, v: f64| u.to_bits() == v.to_bits() || (u == 0.0 && v == 0.0);
+            match sh(&r) {
+                Some(rs) if rs.0 == bs.0.flipped() && same(rs.1, -bs.2) && same(rs.2, -bs.1) => {}
+                _ => s.violation(format!("{p:?}/negation-not-mirrored/{}", kind.name()), format!("{p:?}<{}> {c:?}, pattern {id}, n={n}: base {base:?}; negated data with the flipped kind {r:?}", F::NAME), case(p, "negate")),
+            }
+            // power-of-two scaling: exact
+            for ex in [-20, 1, 20] {
+                let k = 2f64.powi(ex);
+                s.evals += 1;
+                s.calls += 1;
+                s.outcome(&(p, F::NAME, "long-scale", kind));
+                let r = call::<F>(p, c, &scl(x, k), &scl(y, k));
+                match sh(&r) {
+                    Some(rs) if rs.0 == bs.0 && rs.1 == bs.1 * k && rs.2 == bs.2 * k => {}
+                    _ => s.violation(format!("{p:?}/not-scale-equivariant/{}", kind.name()), format!("{p:?}<{}> {c:?}, pattern {id}, n={n}: data x 2^{ex} gives {r:?}, base {base:?}", F::NAME), case(p, "scale")),
+                }
+            }
+        }
+        // reordering (arithmetic mean): within the rounding tolerance of a compensated sum
+        let r0 = call::<F>(Prod::Arithmetic, c, &a, &vec![]);
+        let Some(b0) = sh(&r0) else { continue };
+        for (name, data) in orders.iter() {
+            s.evals += 1;
+            s.calls += 1;
+            s.outcome(&(Prod::Arithmetic, F::NAME, "long-permute", kind));
+            let r = call::<F>(Prod::Arithmetic, c, data, &vec![]);
+            let ok = match sh(&r) {
+                Some(bs) if bs.0 == b0.0 => [(bs.1, b0.1), (bs.2, b0.2)].iter().all(|&(x, y)| {
+                    if x.is_infinite() || y.is_infinite() {
+                        return x == y;
+                    }
+                    let h = if b0.1.is_finite() && b0.2.is_finite() { 0.5 * (b0.2 - b0.1) } else { (y - e[0].mean_f()).abs() };
+                    match tol_pair::<F>(&e[0], &e[0], h, x) {
+                        Some(t) => {
+                            s.max(&format!("long_permutation_dev_over_tol[{}]", F::NAME), (x - y).abs() / t, || format!("pattern {id} n={n} {name} {c:?}"));
+                            (x - y).abs() <= t
+                        }
+                        None => true,
+                    }
+                }),
+                _ => false,
+            };
+            if !ok {
+                s.violation(format!("Arithmetic/order-dependent/{}", kind.name()), format!("Arithmetic<{}> {c:?}, pattern {id}, n={n}: original order {r0:?}, {name} order {r:?}", F::NAME), case(Prod::Arithmetic, "permute"));
+            }
+        }
+    }
+}
+
 enum Job {
     Rel(Prod, Vec<f64>, Vec<f64>, bool),
     Perm(Prod, Vec<f64>, bool),
+    Long(u8, usize, bool),
 }
 
 fn run(tier: Tier) -> Sink {
@@ -373,7 +470,15 @@ fn run(tier: Tier) -> Sink {
         let pre: Vec<f64> = (0..64).map(|i| [1.0, 2.0, 3.0, 0.1, 100.0][i % 5] + (i / 5) as f64 * 0.25).collect();
         jobs.push(Job::Rel(Prod::Arithmetic, pre, vec![], f32_));
     }
+    for id in 0..2u8 {
+        for n in LONG_N {
+            jobs.push(Job::Long(id, n, false));
+            jobs.push(Job::Long(id, n, true));
+        }
+    }
     par_judge(&jobs, |j, s| match j {
+        Job::Long(id, n, false) => judge_long::<f64>(*id, *n, &confs, s),
+        Job::Long(id, n, true) => judge_long::<f32>(*id, *n, &confs, s),
         Job::Rel(p, a, b, false) => judge_relations::<f64>(*p, a, b, &confs, true, s),
         Job::Rel(p, a, b, true) => judge_relations::<f32>(*p, a, b, &confs, true, s),
         Job::Perm(p, v, false) => judge_perms::<f64>(*p, v, &confs, s),
@@ -382,6 +487,17 @@ fn run(tier: Tier) -> Sink {
 }
 
 fn replay_case(case: &Value, s: &mut Sink) {
+    if let Some(id) = case["long"].as_u64() {
+        let kind: Kind = serde_json::from_value(case["kind"].clone()).unwrap();
+        let confs = [(kind, case["level"].as_f64().unwrap())];
+        let n = case["n"].as_u64().unwrap() as usize;
+        if case["type"] == "f32" {
+            judge_long::<f32>(id as u8, n, &confs, s)
+        } else {
+            judge_long::<f64>(id as u8, n, &confs, s)
+        }
+        return;
+    }
     let p: Prod = serde_json::from_value(case["producer"].clone()).unwrap();
     let a: Vec<f64> = serde_json::from_value(case["a"].clone()).unwrap();
     let b: Vec<f64> = serde_json::from_value(case["b"].clone()).unwrap_or_default();
@@ -412,7 +528,7 @@ fn main() {
     s.sample(json!({"producer":"Arithmetic","type":"f64","a":[0.1,100.0,-3.0],"relations":["x 2^e for e in {-300,-40,-3,-1,1,2,10,40,300}: bounds scaled bit-exactly","negated data with flipped kind: mirrored bit-exactly","+ shift in {1,-7.5,1000,2^20}: shifted within conditioning tolerance","all 6 orders: bounds agree within tolerance"]}));
     s.sample(json!({"producer":"Unpaired","type":"f32","a":[-3.0,100.0],"b":[0.25,0.1],"relations":["scale (|e|<=40)","negate","shift of sample a"]}));
     s.sample(json!({"producer":"Geometric","type":"f64","a":[0.25,2.75,100.0],"relations":["x 2^e: ln bound shifts by e ln 2 up to rounding"]}));
-    rep.rule = format!("base samples: every sequence of length 2..{} over {:?} (positive ones also through Geometric/Harmonic), every pair of equal-length sequences of length 2..{} over {:?} through Paired and Unpaired, x 21 confidences x f64,f32; transformations: 9 power-of-two exponents (f32: |e|<=40; filtered so that values, squares and their rounding errors stay normal), negation, 4 shifts (only where the shifted data are exact), all n! orders of every multiset of size 3..{}; distinct by (producer, type, relation, kind)", tier.pick(3, 5), ALPHA, tier.pick(2, 3), PAIR_ALPHA, tier.pick(5, 6));
+    rep.rule = format!("base samples: every sequence of length 2..{} over {:?} (positive ones also through Geometric/Harmonic), every pair of equal-length sequences of length 2..{} over {:?} through Paired and Unpaired, x 21 confidences x f64,f32; transformations: 9 power-of-two exponents (f32: |e|<=40; filtered so that values, squares and their rounding errors stay normal), negation, 4 shifts (only where the shifted data are exact), all n! orders of every multiset of size 3..{}; two patterns of 100 003 and 250 000 observations (beyond the switch to the normal quantile) through Arithmetic, Paired and Unpaired: negation and 3 scalings bit-exact, 5 structured orders (reversed, ascending, descending, stride, by magnitude) within tolerance; distinct by (producer, type, relation, kind)", tier.pick(3, 5), ALPHA, tier.pick(2, 3), PAIR_ALPHA, tier.pick(5, 6));
     rep.assume("scaling and negation are demanded bit-exactly for arithmetic, paired, unpaired and harmonic intervals (IEEE operations commute with exact power-of-two scaling inside the normal range and round-to-nearest is sign-symmetric); geometric intervals and the shift/permutation relations within 8u*sum|x|/n + half-width*16u*(cond1+cond2) + 4u|bound|");
     rep.require(s.distinct() >= 40, "fewer than 40 distinct classes: vacuous");
     std::process::exit(rep.finish(s));
